@@ -296,6 +296,8 @@ def main(tier, seed, replay=None):
         for e in FIXED:
             cases.append({"re": e, "alpha": "abc", "covered": False})
         # expressions whose suffix walk exceeds the call budget, with literal text around the alternations and a constructed match
+        cases.append({"re": "FLAG_(?:[a-z]|%[0-9]{2}){18}", "alpha": "a%1", "covered": False,
+                      "probes": ["FLAG_" + "x" * 18, "FLAG_" + "%12" * 18, "zFLAG_" + "a%07" * 9 + "zz"]})
         for _ in range(3):
             head, tail = rng.choice(["id=", "ab", "x"]), rng.choice([";", "b", "ca"])
             w1, w2 = rng.choice([("ab", "c"), ("ba", "c"), ("aa", "b")])
